@@ -321,8 +321,18 @@ class MatchToIf(ast.NodeTransformer):
 
     def visit_Match(self, n):
         self.generic_visit(n)
+        pre = []
         if not is_pure_simple(n.subject):
-            return n
+            # evaluate the subject once into a fresh variable, then match on that
+            self._k = getattr(self, "_k", 0) + 1
+            tmp = f"match__subject__{self._k}"
+            pre = [_loc(ast.Assign(targets=[ast.Name(id=tmp, ctx=ast.Store())], value=n.subject), n)]
+            n2 = _loc(ast.Match(subject=_loc(ast.Name(id=tmp, ctx=ast.Load()), n), cases=n.cases), n)
+            out = self._lower(n2)
+            return n if out is n2 else pre + (out if isinstance(out, list) else [out])
+        return self._lower(n)
+
+    def _lower(self, n):
         arms = []
         for c in n.cases:
             t, bind = _pattern_test(n.subject, c.pattern)
@@ -969,9 +979,21 @@ def _record_class_fields(cls):
         if isinstance(s, ast.Assign) and len(s.targets) == 1 and isinstance(s.targets[0], ast.Name) and s.targets[0].id == "__slots__":
             continue
         if isinstance(s, ast.AnnAssign) and isinstance(s.target, ast.Name) and is_dc:
-            if s.value is not None and not isinstance(s.value, ast.Constant):
+            v_ = s.value
+            if isinstance(v_, ast.Call) and ((isinstance(v_.func, ast.Name) and v_.func.id == "field") or
+                                             (isinstance(v_.func, ast.Attribute) and v_.func.attr == "field")) and not v_.args:
+                kw_ = {k.arg: k.value for k in v_.keywords}
+                if "default" in kw_ and isinstance(kw_["default"], ast.Constant):
+                    v_ = kw_["default"]
+                elif "default_factory" in kw_ and isinstance(kw_["default_factory"], (ast.Name, ast.Attribute)):
+                    v_ = ast.copy_location(ast.Call(func=copy.deepcopy(kw_["default_factory"]), args=[], keywords=[]), v_)  # a fresh value per instance
+                elif not (set(kw_) & {"default", "default_factory"}):
+                    v_ = None
+                else:
+                    return None
+            elif v_ is not None and not isinstance(v_, ast.Constant):
                 return None
-            fields[s.target.id] = s.value
+            fields[s.target.id] = v_
             continue
         if isinstance(s, ast.FunctionDef) and s.name == "__init__" and not is_dc and not s.decorator_list:
             init = s
@@ -2027,6 +2049,155 @@ def inline_cross_module_helpers(trees, known, counter):
     return done
 
 
+# ---------------------------------------------------------------------------------------------- delegating methods
+def inline_delegating_methods(trees):
+    """`def _m(self, p=d, **kw): return F(<self.attr ...>, p, **kw)` - a private method whose whole body hands its parameters on
+    to one module-level function - is replaced at every call site `x._m(a, k=v)` by `F(<x.attr ...>, a, k=v)` (the import of F is
+    added where needed).  Only when `_m` is defined in exactly one class, is never overridden or referenced otherwise, and every
+    site calls it on a plain name."""
+    defined = {}
+    for mname, t in trees.items():
+        for c in [x for x in ast.walk(t) if isinstance(x, ast.ClassDef)]:
+            for st in c.body:
+                if isinstance(st, _FUNC_NODES):
+                    defined.setdefault(st.name, []).append((mname, t, c, st))
+    done = 0
+    for nm, places in defined.items():
+        if len(places) != 1 or not nm.startswith("_") or (nm.startswith("__") and nm.endswith("__")):
+            continue
+        mname, tree, cls, meth = places[0]
+        if not isinstance(meth, ast.FunctionDef) or meth.decorator_list or meth.args.vararg or meth.args.posonlyargs or meth.args.kwonlyargs:
+            continue
+        body = _strip_doc(meth.body)
+        if len(body) != 1 or not isinstance(body[0], ast.Return) or not isinstance(body[0].value, ast.Call) or not isinstance(body[0].value.func, ast.Name):
+            continue
+        call = body[0].value
+        ps = [a.arg for a in meth.args.args]
+        if not ps:
+            continue
+        selfn, params = ps[0], ps[1:]
+        kwname = meth.args.kwarg.arg if meth.args.kwarg else None
+        defaults = dict(zip(params[len(params) - len(meth.args.defaults):], meth.args.defaults)) if meth.args.defaults else {}
+        if any(not isinstance(d, ast.Constant) for d in defaults.values()):
+            continue
+        fname = call.func.id
+        bind = _module_bindings(tree)
+        src = bind.get(fname)
+        if src is None:
+            continue
+        want = src if src[0] in ("from", "import") else ("from", mname, fname)
+
+        def simple(e):
+            # a parameter handed on, a constant, or an attribute path on self
+            if isinstance(e, ast.Constant) or (isinstance(e, ast.Name) and e.id in params):
+                return True
+            while isinstance(e, ast.Attribute):
+                e = e.value
+            return isinstance(e, ast.Name) and e.id == selfn
+        if not all(simple(a) for a in call.args) or any(isinstance(a, ast.Starred) for a in call.args):
+            continue
+        ok = True
+        for k in call.keywords:
+            if k.arg is None:
+                ok = ok and isinstance(k.value, ast.Name) and k.value.id == kwname
+            else:
+                ok = ok and simple(k.value)
+        if not ok:
+            continue
+        # every mention of the name is a call `<name>._m(...)`
+        sites = []
+        for bname, btree in trees.items():
+            parents = {}
+            for p_ in ast.walk(btree):
+                for c_ in ast.iter_child_nodes(p_):
+                    parents[id(c_)] = p_
+            for a in [n for n in ast.walk(btree) if isinstance(n, ast.Attribute) and n.attr == nm]:
+                par = parents.get(id(a))
+                if not (isinstance(par, ast.Call) and par.func is a and isinstance(a.value, ast.Name)):
+                    ok = False
+                sites.append((bname, btree, par, a))
+            if any(isinstance(n, ast.Name) and n.id == nm for n in ast.walk(btree)) or \
+                    any(isinstance(n, ast.Constant) and n.value == nm for n in ast.walk(btree)):
+                ok = False
+        if not ok or not sites:
+            continue
+        # bind and rewrite
+        plans = []
+        for bname, btree, site, attr in sites:
+            if any(isinstance(a, ast.Starred) for a in site.args) or any(k.arg is None for k in site.keywords) or len(site.args) > len(params):
+                ok = False
+                break
+            given = dict(zip(params, site.args))
+            extra = []
+            for k in site.keywords:
+                if k.arg in params and k.arg not in given:
+                    given[k.arg] = k.value
+                elif kwname is not None and k.arg not in params:
+                    extra.append(k)
+                else:
+                    ok = False
+            for p_ in params:
+                if p_ not in given:
+                    if p_ in defaults:
+                        given[p_] = copy.deepcopy(defaults[p_])
+                    else:
+                        ok = False
+            if not ok:
+                break
+            bbind = _module_bindings(btree)
+            have = bbind.get(fname)
+            need_import = None
+            if btree is not tree and have != want:
+                if have is not None:
+                    ok = False
+                    break
+                need_import = want
+            elif btree is tree and have is None:
+                ok = False
+                break
+            plans.append((btree, site, attr, given, extra, need_import))
+        if not ok:
+            continue
+        for btree, site, attr, given, extra, need_import in plans:
+            recv = attr.value
+
+            def subst(e):
+                e = copy.deepcopy(e)
+
+                class R(ast.NodeTransformer):
+                    def visit_Name(self, n):
+                        if n.id == selfn:
+                            return ast.copy_location(copy.deepcopy(recv), n)
+                        if n.id in given:
+                            return ast.copy_location(copy.deepcopy(given[n.id]), n)
+                        return n
+                return R().visit(e)
+            new_args = [subst(a) for a in call.args]
+            new_kws = []
+            for k in call.keywords:
+                if k.arg is None:
+                    new_kws += [ast.keyword(arg=x.arg, value=x.value) for x in extra]
+                else:
+                    new_kws.append(ast.keyword(arg=k.arg, value=subst(k.value)))
+            site.func = ast.copy_location(ast.Name(id=fname, ctx=ast.Load()), attr)
+            site.args = new_args
+            site.keywords = new_kws
+            if need_import is not None:
+                imp = ast.ImportFrom(module=need_import[1], names=[ast.alias(name=need_import[2], asname=fname if fname != need_import[2] else None)], level=0) \
+                    if need_import[0] == "from" else ast.Import(names=[ast.alias(name=need_import[1], asname=fname if fname != need_import[1] else None)])
+                idx = max([i for i, st in enumerate(btree.body) if isinstance(st, (ast.Import, ast.ImportFrom))] + [-1]) + 1
+                btree.body.insert(idx, _loc(imp, btree.body[idx - 1] if idx else btree.body[0]))
+            done += 1
+        # nothing refers to the private method any more
+        cls.body.remove(meth)
+        if not cls.body:
+            cls.body.append(_loc(ast.Pass(), meth))
+    if done:
+        for t in trees.values():
+            ast.fix_missing_locations(t)
+    return done
+
+
 # ---------------------------------------------------------------------------------------------- driver
 def load_known_funcs():
     """Reference table: module -> names of its module-level functions on the tree the rules were confirmed on.
@@ -2053,6 +2224,9 @@ def canonicalise(trees, level, known_funcs=None):
     for k_, v_ in (known_funcs or {}).items():
         if "::" not in k_:
             _ALL_KNOWN[0] |= set(v_)
+    n_dm = inline_delegating_methods(trees)
+    if n_dm:
+        log.append({"module": "*", "delegating_methods_inlined": n_dm})
     if level >= 2:
         n_x = inline_cross_module_helpers(trees, known_funcs or {}, itertools.count(1000))
         n_pm = inline_private_methods(trees, known_funcs or {}, itertools.count(2000))
